@@ -29,10 +29,10 @@ CFG = {
 ENV = {"ASAN_OPTIONS": vlib.ASAN_ENV + ":symbolize=0"}
 NB = 24
 KEYS = ("ret", "freed", "links", "names", "vals", "metas")
-NEW_ACTS = ("items", "croot", "switch", "travx", "samelevel", "sublevel", "query", "assign", "assignfail", "setval", "cfgset", "cfgdel",
+NEW_ACTS = ("items", "croot", "nrel", "switch", "travx", "samelevel", "sublevel", "query", "assign", "assignfail", "setval", "cfgset", "cfgdel",
             "parse", "parsex", "cfgload", "drop", "teardown")
 C_ONLY = ('"cfgset"', '"cfgdel"', '"cfgload"')
-CXX_ONLY = ('"items"', '"croot"')
+CXX_ONLY = ('"items"', '"croot"', '"nrel"')
 
 
 def enabled():
@@ -318,7 +318,7 @@ def new_call(rng, links, pool, lang):
     if lang == "c":
         ops += [("cfgset", 7), ("cfgdel", 4), ("cfgload", 3)]
     else:
-        ops += [("items", 7), ("croot", 5)]
+        ops += [("items", 7), ("croot", 5), ("nrel", 4)]
     op = rng.choices([o for o, _ in ops], [w for _, w in ops])[0]
     if op == "switch":
         arg = {"a": any_handle(), "b": any_handle()}
@@ -329,6 +329,8 @@ def new_call(rng, links, pool, lang):
         arg = {"n": any_handle(), "up": rng.choice([0, 1, 1, 2, 3, 6])}
     elif op == "query":
         arg = {"n": any_handle(), "path": path()}
+    elif op == "nrel":
+        arg = {"n": any_handle(), "key": rng.choice(pool)}
     elif op == "croot":
         arg = {"n": any_handle(), "del": rng.choice([0, 1])}
     elif op == "items":
